@@ -83,3 +83,7 @@ package snps
 //@ func SNPs prefix
 //@   modifies everything
 //@   after if#2: assert [c18.oneref] len(refs) == 1
+//@   # C03: --hard-gaps reaches BOTH sides of the comparison: the reference codes come from the table hardGaps selects, and the
+//@   # streaming reader of the queries is started with the same flag
+//@   before call:ReadEncodeAlignment#1: assert [c03.refmode] forall(j, 0, len(refSeq), modeOK(refSeq[j], hardGaps))
+//@   before call:ReadEncodeAlignment#1: assert [c03.querymode] arg(1) == hardGaps
